@@ -14,14 +14,18 @@ RECURSIVE Join(_, _)
 Join(ss, sep) == IF ss = <<>> THEN "" ELSE IF Len(ss) = 1 THEN ss[1] ELSE ss[1] \o sep \o Join(Tail(ss), sep)
 NatStr(n) == <<"0", "1", "2", "3", "4", "5">>[n + 1]
 
-\* one rule as a single token-ish string; parens: write "a()" for nullary rules
-RuleStr(r, parens, blanks) ==
-  LET lhs == IF Len(r[2]) = 0 THEN (IF parens THEN r[1] \o "()" ELSE r[1])
-             ELSE r[1] \o "(" \o Join(r[2], IF blanks THEN " , " ELSE ",") \o ")"
+\* one rule as a single token-ish string; parens: write "a()" for nullary rules; inner: blanks directly inside the parentheses
+\* ("a( )", "f( p , q )")
+RuleStr(r, parens, blanks, inner) ==
+  LET op == IF inner THEN "( " ELSE "("
+      cl == IF inner THEN " )" ELSE ")"
+      lhs == IF Len(r[2]) = 0 THEN (IF parens THEN r[1] \o (IF inner THEN "( )" ELSE "()") ELSE r[1])
+             ELSE r[1] \o op \o Join(r[2], IF blanks THEN " , " ELSE ",") \o cl
   IN lhs \o (IF blanks THEN "   ->  " ELSE " -> ") \o r[3]
 
 \* the lines of a serialisation.  variant 0: canonical; 1: nullary rules with (); 2: blank lines, extra blanks, q:0 suffixes;
-\* 3: sections without content where the description allows it (no Ops / States lists); 4: symbols declared without a rank
+\* 3: sections without content where the description allows it (no Ops / States lists); 4: symbols declared without a rank;
+\* 5: TAB as the separator of the header lines, blanks directly inside every pair of parentheses ("a( )", "f( p , q )")
 Lines(d, variant) ==
   LET symTok == [s \in d.syms |-> IF variant = 4 THEN s[1] ELSE s[1] \o ":" \o NatStr(s[2])]
       syms == SetToSeq({symTok[s] : s \in d.syms})
@@ -29,13 +33,13 @@ Lines(d, variant) ==
       stsV == IF variant = 2 THEN [i \in 1..Len(sts) |-> sts[i] \o ":0"] ELSE sts
       fins == SetToSeq(d.fin)
       rules == SetToSeq(d.trans)
-      sep == IF variant = 2 THEN "  " ELSE " "
+      sep == IF variant = 2 THEN "  " ELSE IF variant = 5 THEN "\t" ELSE " "
       head == << IF variant = 3 THEN "Ops" ELSE Join(<<"Ops">> \o syms, sep),
                  "Automaton " \o d.name,
                  IF variant = 3 THEN "States" ELSE Join(<<"States">> \o stsV, sep),
-                 Join(<<"Final", "States">> \o fins, sep),
+                 Join(<<"Final States">> \o fins, sep),
                  "Transitions" >>
-      body == [i \in 1..Len(rules) |-> RuleStr(rules[i], variant = 1, variant = 2)]
+      body == [i \in 1..Len(rules) |-> RuleStr(rules[i], variant \in {1, 5}, variant \in {2, 5}, variant = 5)]
   IN IF variant = 2 THEN <<"", head[1], "", head[2], head[3], "   " \o head[4] \o "  ", head[5], "">> \o body \o <<"", "">>
      ELSE head \o body
 Ser(d, variant) == Join(Lines(d, variant), "\n") \o "\n"
